@@ -180,13 +180,28 @@ Theorem C13_get_subdomain_hypotheses_decidable : forall d l,
 Proof. exact sub_hyps_b_sound. Qed.
 Print Assumptions C13_get_subdomain_hypotheses_decidable.
 
-(* where the faithful model contradicts the property (each confirmed on the real code by the check) *)
-Theorem C13_get_subdomain_raises_refuted :
-  exists D, ring3 = Ok D /\ valid_tuple D ["A"; "B"] = true /\
-            get_subdomain D (SelTuple ["A"; "B"]) = Err EType.
-Proof. exact get_subdomain_raises_refuted. Qed.
-Print Assumptions C13_get_subdomain_raises_refuted.
+(* ... and the extraction of a proper selection always succeeds, however few boundary faces a patch keeps *)
+Theorem C13_get_subdomain_total : forall d l U,
+  sub_hyps d l U -> (forall p, In p (d_interiors d) -> p_dim p = d_dim d) ->
+  exists S, get_subdomain d (SelTuple l) = Ok (Some S).
+Proof. exact get_subdomain_total. Qed.
+Print Assumptions C13_get_subdomain_total.
 
+(* two of three lines joined in a ring (each keeps ONE boundary face): the former failing input *)
+Theorem C13_get_subdomain_ring :
+  exists D S, ring3 = Ok D /\ valid_tuple D ["A"; "B"] = true /\
+    get_subdomain D (SelTuple ["A"; "B"]) = Ok (Some S) /\
+    d_boundary S = [mkFace lnA 0 (-1); mkFace lnB 0 1] /\
+    d_conn S = [mkIface "A|B" (mkFace lnA 0 1) (mkFace lnB 0 (-1)) ONone] /\
+    d_interiors S = [lnA; lnB].
+Proof. exact get_subdomain_ring. Qed.
+Print Assumptions C13_get_subdomain_ring.
+
+(* where the faithful model contradicts the property (each confirmed on the real code by the check) *)
+(* (historical: before commit be11fac of /repo a selected patch keeping fewer than two boundary faces made
+   get_subdomain raise TypeError; the model then had the corresponding error arms and a lemma
+   C13_get_subdomain_raises_refuted.  The repaired code is modelled now and the witness of that lemma is the
+   positive example C13_get_subdomain_ring below.) *)
 Theorem C13_get_subdomain_self_interface_refuted :
   exists D S, self_conn = Ok D /\ get_subdomain D (SelTuple ["A"]) = Ok (Some S) /\
     ~ In (mkFace sqA 1 1) (d_boundary S) /\
